@@ -100,3 +100,41 @@ def fault_signature(r):
     else:
         sym = "other:" + kind
     return "%s|%s|%s" % (where, variant, sym)
+
+
+def sweep_signature(r):
+    """'<kind>@<step>|then=<x>|<symptom>' for a rejected pause-the-writer trace."""
+    tag = r["header"].get("tag", "")
+    parts = tag.split("|")
+    where = parts[1] if len(parts) > 1 else "?"
+    then = parts[2] if len(parts) > 2 else "?"
+    raw, idx = r["raw"], r["index"]
+    ev = raw[idx] if 0 <= idx < len(raw) else {}
+    t = ev.get("t", "")
+    kind = ev.get("ev", "?")
+    if kind in ("Op", "OpenStore") and (t.startswith("r") or t.startswith("c")):
+        who = "reader" if t.startswith("r") else "child-reader"
+        # what did this reader see of the store in question?
+        s = ev.get("s")
+        mine = [e for e in raw if e.get("t") == t and e.get("s") == s and e.get("ev") == "Op"]
+        cnt = next((e["n"] for e in mine if e.get("op") == "Count"), None)
+        scan = next((e["items"] for e in mine if e.get("op") == "Scan"), None)
+        if cnt is not None and scan is not None and cnt != len(scan):
+            sym = who + ":count-differs-from-own-scan"
+        else:
+            sym = who + ":unexplained-" + (ev.get("op") or kind)
+    elif kind in ("Observe", "ObserveError"):
+        wend = next((e for e in raw[:idx + 1] if e.get("ev") == "CommitEnd" and e.get("t") == "w"), None)
+        phase = "after-writer-ok" if (wend and wend.get("ok")) else ("after-writer-failed" if wend else "writer-in-flight")
+        if kind == "ObserveError":
+            what = "unreadable"
+        elif ev.get("exists") and ev.get("count") != len(ev.get("items") or []):
+            what = "count-differs-from-scan"
+        else:
+            what = "contents"
+        sym = "observe-%s:%s" % (phase, what)
+    elif kind == "CommitEnd":
+        sym = "commit-result-rejected:%s:ok=%s" % ("writer" if t == "w" else "reader", ev.get("ok"))
+    else:
+        sym = "other:%s:%s" % (kind, ev.get("op", ""))
+    return "%s|%s|%s" % (where, then, sym)
